@@ -105,6 +105,21 @@ def own_writes(r):
     return impl.flatten(blocks)
 
 
+def own_offsets(r):
+    """node index -> file offset at which the next emitted byte (at or after that node) is stored, from the real writes"""
+    if r.get("_own_offsets") is not None:
+        return r["_own_offsets"]
+    flat = own_writes(r)
+    out, k = {}, 0
+    for i, n in enumerate(r["nodes"]):
+        n["index"] = i
+        if k < len(flat):
+            out[i] = flat[k][0]
+        k += len(n.get("bytes") or b"")
+    r["_own_offsets"] = out
+    return out
+
+
 def oracle_c02(run: Runner, s: core.Stream, pr, r):
     """labels / incbin symbols = run address of the next byte; size in the label pass = bytes emitted"""
     if r["status"] != "ok" or r.get("nodes") is None:
@@ -114,14 +129,45 @@ def oracle_c02(run: Runner, s: core.Stream, pr, r):
             continue
         # SymbolNode is skipped by the label pass (its first pc_after call belongs to the symbol pass, whose
         # addresses are not used for anything)
+        k = run.kind_of(pr, n["run"])
+        if k and k[0] == "rom" and run.spec_phys(pr, n["run"]) is None:
+            continue   # an address below the bank window (program without a leading *=): no claim (DESIGN section 8)
         if n["cls"] != "SymbolNode" and n["pass1"] is not None and n["pass1"] != n["run"]:
             s.violate({"src": pr["src"], "rom": pr["rom"]}, f"{n['cls']} at {hex(n['pass1'])} in both passes", f"label pass {hex(n['pass1'])}, emitted at {hex(n['run'])}",
                       "a statement is placed at a different address than the one it had while labels were resolved (sizes disagree) and the assembly did not fail")
             return
-        if n["cls"] in ("LabelNode", "BinaryNode") and n.get("label_value") != n["run"]:
-            s.violate({"src": pr["src"], "rom": pr["rom"]}, f"{n['name']} = {hex(n['run'])}", n.get("label_value"),
-                      "label / incbin symbol differs from the address where the next byte is emitted")
+        if n["cls"] in ("LabelNode", "BinaryNode") and (n.get("label_value") != n["run"] or n.get("symbol_value") != n["run"]):
+            s.violate({"src": pr["src"], "rom": pr["rom"]}, f"{n['name']} = {hex(n['run'])}", (n.get("label_value"), n.get("symbol_value")),
+                      "label / incbin symbol does not evaluate to the address where the next byte is emitted")
             return
+    # the byte after a label is really placed at the file offset the mapping gives the label's address
+    S, relocated, started = 0, False, False
+    for n in r["nodes"]:
+        if n["cls"] == "CodePositionNode":
+            p = run.spec_phys(pr, n.get("target"))
+            if p is None:
+                break
+            S, relocated, started = p, False, True
+            continue
+        if n["cls"] == "RelocationAddressNode":
+            relocated = True
+            continue
+        if n["cls"] in ("LabelNode", "BinaryNode") and started and not relocated:
+            nxt = own_offsets(r)
+            # only when a byte is emitted after the label before the next position directive
+            follows = False
+            for m2 in r["nodes"][n.get("index", 0) + 1:] if "index" in n else []:
+                if m2["cls"] in ("CodePositionNode", "RelocationAddressNode"):
+                    break
+                if m2.get("bytes"):
+                    follows = True
+                    break
+            if n["cls"] == "BinaryNode" and n.get("bytes"):
+                follows = True
+            if follows and nxt is not None and n.get("index") in nxt and run.spec_phys(pr, n["run"]) != nxt[n["index"]]:
+                s.violate({"src": pr["src"], "rom": pr["rom"]}, f"next byte after {n['name']} (= {hex(n['run'])}) at file offset {run.spec_phys(pr, n['run'])}", nxt[n["index"]],
+                          "the first byte emitted after a label is not placed at the label's mapped address")
+                return
     # named-scope exports carry the label's value
     root = r.get("symbols", {})
     labs = dict(r["labels"])
